@@ -314,6 +314,50 @@ def run(tier, seed, replay=None):
             else:
                 if res[0][1]:
                     chk.nontrivial.add(("edit", i))
+        # ---- line ends: a file whose lines end in a lone carriage return (classic Mac) or in CR LF is read in text mode, so it
+        #      is measured like the same file with LF — and inserting a comment line shifts it the same way
+        #      (seeded change C04-18: the file read as bytes and decoded by hand, universal newlines lost)
+        for i in range(14 if tier == "quick" else 210):
+            lang = LC.LANGS[i % len(LC.LANGS)]
+            ext = LC.EXT[lang]
+            rng = random.Random(seed * 17 + i)
+            text = progen.generate(seed * 61 + i, lang, {"long_bodies": False, "strings": False})["text"]
+            if "\r" in text or "\\\n" in text:
+                continue
+            lines = text.split("\n")
+            k = rng.randrange(0, len(lines))
+            lead = "# inserted" if lang == "Python" else "// inserted"
+            variants = {"plain": lines, "inserted": lines[:k] + [lead] + lines[k:]}
+            res = {}
+            try:
+                for vname, ls in variants.items():
+                    for eol_name, eol in (("LF", "\n"), ("CR", "\r"), ("CRLF", "\r\n")):
+                        d = os.path.join(tmp, f"eol{i}")
+                        os.makedirs(d, exist_ok=True)
+                        with open(os.path.join(d, f"m.{ext}"), "w", newline="") as f:
+                            f.write(eol.join(ls))
+                        cb = Scanner.scan_path(Path(d))
+                        e = cb.files.get(f"m.{ext}")
+                        res[(vname, eol_name)] = None if e is None else [(m.unit_name, m.start.line, m.end.line, m.value) for m in e.measurements()]
+                        shutil.rmtree(d, ignore_errors=True)
+            except Exception as ex:
+                chk.violation({"language": lang, "original": text}, f"m.{ext} with other line ends: scan_path raised {type(ex).__name__}: {ex}")
+                continue
+            chk.evaluations += 1
+            chk.count("file scanned with LF / CR / CRLF line ends")
+            for vname in variants:
+                for eol_name in ("CR", "CRLF"):
+                    if res[(vname, eol_name)] != res[(vname, "LF")]:
+                        chk.violation({"language": lang, "file": f"m.{ext}", "line_ends": eol_name, "original": text},
+                                      f"m.{ext} ({vname}) with {eol_name} line ends: functions (name, first line, last line, length) "
+                                      f"{str(res[(vname, eol_name)])[:150]}, with LF {str(res[(vname, 'LF')])[:150]}")
+                        break
+                else:
+                    continue
+                break
+            else:
+                if res[("plain", "LF")]:
+                    chk.nontrivial.add(("eol", i))
         # ---- the findings listing over several files: functions of EQUAL length in different files must keep their order
         #      when comment / blank lines are inserted above one of them (seeded change C04-12: ties broken by line number)
         import io
